@@ -1,0 +1,9 @@
+//go:build verif
+
+package tabula
+
+// Add-only exports for the verification harness (built only with -tags verif).
+
+// VerifValidateFormat exposes (*Extractor).validateFormat, the content-vs-extension
+// cross-check that ensureReader runs before any reader is opened.
+func (e *Extractor) VerifValidateFormat() error { return e.validateFormat() }
